@@ -186,17 +186,26 @@ Section ExtLagObject.
 
   (* the variable together with the biases that act on it: B sees the reported value; the sum of its
      forces drives the extended coordinate; the atoms feel the spring *)
-  Context {BC BS BO BV : Type} (B : machine BC BS (list T) BO BV) (force_of : BO -> T).
+  (* [bin]: what the bias reads of the variable at this step (its reported value; for ABF also the force the
+     system exerts on the extended coordinate), computed from the variable's state after calc_colvar_properties *)
+  Context {BC BS BI BO BV : Type} (B : machine BC BS BI BO BV) (force_of : BO -> T)
+          (bin : xcfg -> xstate -> BI).
 
   Definition extlag_machine : machine (xcfg * BC) (xstate * BS) xin (T * T * BO) (xsaved * BV) :=
     mkMachine
       (fun c => (x_init, m_init B (snd c)))
       (fun c s it rel i =>
          let s1 := x_pre (fst c) (fst s) rel (xi_x i) in
-         let rb := m_step B (snd c) (snd s) it rel [xs_xr s1] in
+         let rb := m_step B (snd c) (snd s) it rel (bin (fst c) s1) in
          let rx := x_post (fst c) s1 (force_of (snd rb)) (xi_rnd i) in
          ((fst rx, fst rb), (xs_xr s1, snd rx, snd rb)))
       (fun c s => (x_save (fst s), m_save B (snd c) (snd s)))
       (fun c s => (fst s, m_after_save B (snd c) (snd s)))
       (fun c v => (x_load (fst v), m_load B (snd c) (snd v))).
+
+  (* force of the system (the spring) on the extended coordinate: (-0.5 k) * dist2_lgrad(x_ext, x) *)
+  Definition x_fsys (c : xcfg) (s : xstate) : T :=
+    nmul O (nmul O (nneg O nhalfO) (x_k c)) (nmul O (nofZ O 2) (nsub O (xs_x s) (xs_xval s))).
+  (* the biases of an ordinary configuration read the reported value *)
+  Definition bin_value (c : xcfg) (s : xstate) : list T := [xs_xr s].
 End ExtLagObject.
